@@ -456,6 +456,32 @@ def evaluation_time_filter(ctx) -> None:
                 return all(vals) if t[1] == "and" else any(vals)
             return None
 
+        # the two membership tests are asked about *this* time and *this* observable's times, of the run's config
+        tpar = ("param", f.qualname, f.params[2]) if len(f.params) > 2 else None
+        opar = ("param", f.qualname, f.params[1]) if len(f.params) > 1 else None
+        arg_bad = None
+        for rs in table.values():
+            for r in rs:
+                for t_ in _walk(r):
+                    t_ = strip_typed(t_)
+                    if t_[0] != "mcall":
+                        continue
+                    recv_ok = strip_typed(t_[1]) in (("attr", SELF, "config"), ("attr", SELF, "_config"))
+                    pos = [strip_typed(a) for a in t_[3]]
+                    kws = {k: strip_typed(v) for k, v in t_[4]} if len(t_) > 4 else {}
+                    if t_[2].endswith("is_time_in_evaluation_times"):
+                        a0 = pos[0] if pos else kws.get("t")
+                        a1 = pos[1] if len(pos) > 1 else kws.get("evaluation_times")
+                        if not (recv_ok and a0 == tpar and a1 == ("attr", opar, "evaluation_times")):
+                            arg_bad = f"is_time_in_evaluation_times({show(a0)[:20] if a0 else '?'}, {show(a1)[:30] if a1 else '?'}) on {show(t_[1])[:20]}"
+                    elif t_[2].endswith("is_evaluation_time"):
+                        a0 = pos[0] if pos else kws.get("t")
+                        if not (recv_ok and a0 == tpar):
+                            arg_bad = f"is_evaluation_time({show(a0)[:20] if a0 else '?'}) on {show(t_[1])[:20]}"
+        ctx.ob("ONCE-filter", f"{K.name}._is_evaluation_time arguments", f.loc(), arg_bad is None,
+               "membership is tested for the time argument in the observable's own evaluation_times / the config's defaults"
+               if arg_bad is None else
+               f"{K.name}._is_evaluation_time asks {arg_bad}: not (the time, the observable's own evaluation_times) of the run's config")
         ok = bool(table)
         wrong = []
         for og_path, rs in table.items():
